@@ -110,6 +110,10 @@ def run(chk):
     r3 = chk.rule("R02.3", "data objects are read-only to models: private _df touched only by its own class; accessors hand out copies", 6)
     r4 = chk.rule("R02.4", "data classes never write into the caller's frames / series (values or shared index metadata)", 20)
     r5 = chk.rule("R02.5", "frames returned by predict are fresh objects", 3)
+    r6 = chk.rule("R02.6", "no hidden state shared between objects: model and data classes never write, through an instance, into a mutable object that lives on the class", 1)
+    from rules import classstate
+    _cls = [c for c in chk.res.all_classes() if c.module.name.startswith("opendsm.eemeter.models") or c.module.name.startswith("opendsm.eemeter.common")]
+    classstate.report(chk, r6, _cls, what="using one object (constructing, fitting, predicting) changes every other object of the class")
 
     # ------------------------------------------------------------------ R02.1
     fams = [("daily", chk.repo.cls(*DAILY_MODEL)), ("billing", chk.repo.cls(*BILLING_MODEL)), ("billing_weighted", chk.repo.cls(*WEIGHTED_MODEL)),
